@@ -205,7 +205,11 @@ pub fn run09(a: &Args) -> Batch {
         }
         cases.push(Case {
             post: String::new(),
-            term: format!("(mkC09 {}\n {} {} {})", props::eprops(&ind.props), impl_term, coq::b(finite), coq::optq(&m.meta.n50_test_ach)),
+            term: format!("(mkC09 {}\n {} {} {} {})", props::eprops(&ind.props), impl_term, coq::b(finite), coq::optq(&m.meta.n50_test_ach), {
+                let v: Vec<String> = m.cons.wincons.iter().filter(|w| m.cons.wincons.iter().filter(|x| x.id == w.id).count() == 1)
+                    .map(|w| format!("({}, {})", coq::id(w.id), coq::q(w.c_100))).collect();
+                format!("[{}]", v.join("; "))
+            }),
             json: json!({"origin": origin, "model": serde_json::to_value(&m).unwrap(), "n50_data": serde_json::to_value(d).unwrap(), "nonfinite": props::nonfinite_report(&ind.props)}),
             nontrivial: d.walls_a > 0.001 && d.vol > 0.001,
         });
